@@ -798,3 +798,133 @@ func definitelyError(v ssa.Value, depth int) bool {
 }
 
 func describe(v interface{}) string { return fmt.Sprintf("%v", v) }
+
+// ---------------------------------------------------------------------------------------------
+// Success exits: single-exit functions (`return res, err` over result variables) merge all paths into one return whose results
+// are phis. An Exit is a return seen from one incoming edge, with the phis of the return block resolved for that edge; for
+// ordinary returns it is the return itself.
+
+type Exit struct {
+	Ret     *ssa.Return
+	Pred    *ssa.BasicBlock // the predecessor this exit comes from; nil for a return that is not split
+	Results []ssa.Value
+}
+
+// exitsOf lists the exits of fn (all of them, successful or not).
+func exitsOf(fn *ssa.Function) []Exit {
+	var out []Exit
+	for _, ret := range returnsOf(fn) {
+		b := ret.Block()
+		split := false
+		for _, rv := range ret.Results {
+			if ph, ok := unspill(rv).(*ssa.Phi); ok && ph.Block() == b {
+				split = true
+			}
+		}
+		// only a block made of phis (and debug refs) followed by the return is split
+		for _, in := range b.Instrs {
+			switch in.(type) {
+			case *ssa.Phi, *ssa.Return, *ssa.DebugRef:
+			default:
+				split = false
+			}
+		}
+		if !split || len(b.Preds) < 2 {
+			out = append(out, Exit{Ret: ret, Results: ret.Results})
+			continue
+		}
+		for k, pred := range b.Preds {
+			e := Exit{Ret: ret, Pred: pred}
+			for _, rv := range ret.Results {
+				if ph, ok := unspill(rv).(*ssa.Phi); ok && ph.Block() == b && k < len(ph.Edges) {
+					e.Results = append(e.Results, ph.Edges[k])
+				} else {
+					e.Results = append(e.Results, rv)
+				}
+			}
+			out = append(out, e)
+		}
+	}
+	return out
+}
+
+// Block is the block in which the exit is decided: the predecessor for a split return, the return's own block otherwise.
+func (e Exit) Block() *ssa.BasicBlock {
+	if e.Pred != nil {
+		return e.Pred
+	}
+	return e.Ret.Block()
+}
+
+// successExits: the exits whose error result is nil, or not known to be non-nil.
+func successExits(fn *ssa.Function) []Exit {
+	res := fn.Signature.Results()
+	hasErr := res.Len() > 0 && res.At(res.Len()-1).Type().String() == "error"
+	var out []Exit
+	var o *Origin
+	var fa *Facts
+	for _, e := range exitsOf(fn) {
+		if !hasErr {
+			out = append(out, e)
+			continue
+		}
+		ev := unspill(e.Results[len(e.Results)-1])
+		if isNilConst(ev) {
+			out = append(out, e)
+			continue
+		}
+		if definitelyError(ev, 0) {
+			continue
+		}
+		if fa == nil && progForFacts != nil {
+			o = NewOrigin(progForFacts, fn)
+			fa = NewFacts(progForFacts, fn, o)
+		}
+		if fa != nil {
+			et := o.Of(ev)
+			F := fa.AtExit(e)
+			nonNil := false
+			for _, a := range F.Atoms() {
+				t := a.Term
+				if t == nil || t.Op != "eq" {
+					continue
+				}
+				x, y := t.Args[0], t.Args[1]
+				if x.Op != "const" {
+					x, y = y, x
+				}
+				if x.Op == "const" && x.Name == "nil" && y.Eq(et) && Entails(F, fNot(a)) {
+					nonNil = true
+				}
+			}
+			if nonNil {
+				continue
+			}
+		}
+		out = append(out, e)
+	}
+	return out
+}
+
+// AtExit: the condition under which control leaves through the exit.
+func (fa *Facts) AtExit(e Exit) *Formula {
+	if e.Pred == nil {
+		return fa.AtInstrX(e.Ret)
+	}
+	F := fa.At(e.Pred)
+	for si, s := range e.Pred.Succs {
+		if s == e.Ret.Block() {
+			F = fAnd(F, fa.edgeCond(e.Pred, si, []*ssa.BasicBlock{e.Pred}))
+			break
+		}
+	}
+	return F
+}
+
+// domExit: instruction in is executed on every path that leaves through the exit.
+func (o *Origin) domExit(in ssa.Instruction, e Exit) bool {
+	if e.Pred == nil {
+		return o.dominates(in, e.Ret)
+	}
+	return in.Block() == e.Pred || in.Block().Dominates(e.Pred)
+}
